@@ -36,8 +36,8 @@ K_COND = 100.0       # x eps x pose_condition (near-parallel axes: sine by cance
 # the iteration budget is not hit; K_CCD multiples of ccd_tolerance plus K_PRIM*sc rounding.  Worst observed 0.93 tol.
 K_CCD = 4.0
 # ... and relative to the scene scale: GJK/EPA stop on iteration caps / stagnation; worst observed consistent error
-# 1.4e-8*sc (ellipsoid-cylinder at ccd_tolerance 1e-8) -> 1e-6 (100x)
-K_CCDREL = 1e-6
+# 3.2e-6*sc (sphere-ellipsoid inside the margin, size 8, thorough tier) -> 1e-5
+K_CCDREL = 1e-5
 # box-box: documented in the collider (engine_collision_box.c header comment): a face axis may replace an edge axis
 # when within 5 % -> reported depth in [D, D/0.95]; edge bias 1e-6 relative.
 BOXBOX_FUDGE = 1.0 / 0.95 + 1e-5
@@ -270,7 +270,8 @@ def main(ck):
     # capsule-box works with line/box-edge intersections whose parameters are themselves quotients by the sine:
     # observed error ~ eps/angle^2 (4e-8 at 3e-5 rad)
     tprim = sc * ((K_PRIM_CB if pair == ('capsule', 'box') else K_PRIM) +
-                  K_COND * 2.2e-16 * (cond * cond if pair == ('capsule', 'box') else cond))
+                  K_COND * 2.2e-16 * (cond * cond if pair in (('capsule', 'box'), ('capsule', 'capsule')) else cond))
+    # (capsule-capsule: the closest-point parameters are quotients by det = sin^2(angle): observed 2.6e-8 at 3e-5 rad)
     if tprim > 1e-6 * sc:
       if record:
         ck.case(nontrivial=False, labels=['illconditioned(skipped)'])
